@@ -466,3 +466,23 @@ def check(run):
     except RaiseEx as e:
         ok, why = False, f'raises {e}'
     run.check(ok, 'D4', 'mnemonic_to_wallet_key[deterministic]' if not ok else 'derivation is a pure function of the words', why, prog.where(km.funcs['mnemonic_to_wallet_key']))
+    # ... and of nothing else: whatever was derived before in the same process (other salts, other mnemonics, the other entry points),
+    # each derivation gives what it gives in a fresh process
+    wl2 = ListV([K('zoo')] * 23 + [K('abandon')])
+    salts = (K(b'TON default seed'), K(b'TON HD Keys seed'), K(b'some other salt'))
+    calls = [('mnemonic_to_seed', [wl, salts[1]]), ('mnemonic_to_wallet_key', [wl]), ('mnemonic_to_private_key', [wl]), ('mnemonic_to_seed', [wl, salts[0]]),
+             ('mnemonic_to_seed', [wl, salts[2]]), ('mnemonic_to_wallet_key', [wl2]), ('mnemonic_to_seed', [wl2, salts[1]]), ('mnemonic_to_wallet_key', [wl]),
+             ('mnemonic_to_entropy', [wl]), ('mnemonic_to_seed', [wl, salts[1]])]
+    calls = [c for c in calls if c[0] in km.funcs]
+    it = mk(prog)
+    for i, (fn_, args_) in enumerate(calls):
+        try:
+            fresh = repr(mk(prog).invoke(km.funcs[fn_], list(args_), {}))
+            got = repr(it.invoke(km.funcs[fn_], list(args_), {}))
+            ok = fresh == got
+            why = f'call #{i + 1} {fn_}({"first" if args_[0] is wl else "second"} mnemonic{", salt " + repr(args_[1].v) if len(args_) > 1 else ""}) after {i} earlier derivation(s): ' + \
+                ('the same result as in a fresh process' if ok else f'{got[:70]} - in a fresh process {fresh[:70]}')
+        except RaiseEx as e:
+            ok, why = False, f'call #{i + 1} {fn_}: raises {e}'
+        run.check(ok, 'D4', f'{fn_}[independent of earlier calls]' if not ok else f'history[{i}:{fn_}]', why, prog.where(km.funcs[fn_]))
+        run.evaluations += 1
